@@ -2711,6 +2711,14 @@ class Ladder(Lattice):
         self._reciprocal_basis = np.array([[2 * np.pi, 0]])
         self._BZ = SimpleBZ.from_recip_basis_vectors(np.array([[2 * np.pi]]), self.dim)
 
+    @classmethod
+    def from_hdf5(cls, hdf5_loader, h5gr, subpath):
+        obj = super().from_hdf5(hdf5_loader, h5gr, subpath)
+        # set reciprocal basis and BZ explicitly as in `__init__`
+        obj._reciprocal_basis = np.array([[2 * np.pi, 0]])
+        obj._BZ = SimpleBZ.from_recip_basis_vectors(np.array([[2 * np.pi]]), obj.dim)
+        return obj
+
     def ordering(self, order):
         """Provide possible orderings of the `N` lattice sites.
 
